@@ -9,7 +9,7 @@ from ..core import Ctx, property_info, rule
 from ..events import check_function, is_event_generator, node_events
 from ..model import AnalysisError, FuncInfo, norm_text, walk_no_nested
 from ..q import (
-    MUTATORS, attr_method_calls, is_call_to_self, is_self_attr, kwarg, names_in, root_name, self_attr_stores, stores,
+    A, MUTATORS, attr_method_calls, is_call_to_self, is_self_attr, kwarg, names_in, root_name, self_attr_stores, stores,
     unparse,
 )
 
@@ -579,3 +579,34 @@ def user_prefix_gate(ctx: Ctx) -> None:
                construct="reserved prefix gate",
                msg="ns_map={'xmlns': uri} or {'xml': other-uri} produces a namespace-ill-formed document")
         ctx.note("C03.R9 gate", {"gates": [unparse(t.ast) for t in gates], "consulted": sorted(consulted)})
+
+
+@rule("C03.R10")
+def meta_is_never_inherited(ctx: Ctx) -> None:
+    """The binding metadata reads a class's Meta only when the class defines it itself ('Meta' in cls.__dict__)."""
+    b = ctx.repo.cls("xsdata.formats.dataclass.models.builders:XmlMetaBuilder")
+    n = 0
+    for m in b.methods.values():
+        g = None
+        # (a) attribute reads  X.Meta
+        for node in walk_no_nested(m.node):
+            if isinstance(node, ast.Attribute) and node.attr == "Meta" and isinstance(node.ctx, ast.Load):
+                n += 1
+                g = g or build_cfg(m.node)
+                owner = unparse(node.value)
+                cn = g.node_of(node)
+                guards = [t for t in g.nodes if t.kind == "test" and isinstance(t.ast, ast.Compare) and isinstance(t.ast.ops[0], ast.In) and isinstance(t.ast.left, ast.Constant)
+                          and t.ast.left.value == "Meta" and unparse(t.ast.comparators[0]) == f"{owner}.__dict__"]
+                ok = cn is not None and any(g.only_if(cn.id, t.id, True) for t in guards)
+                # conditional expression form:  X.Meta if "Meta" in X.__dict__ else None
+                if not ok:
+                    for ife in walk_no_nested(m.node):
+                        if isinstance(ife, ast.IfExp) and any(sub is node for sub in ast.walk(ife.body)) and A(unparse(ife.test)) == A(f"'Meta' in {owner}.__dict__"):
+                            ok = True
+                ctx.ob(f"{m.name}: {owner}.Meta is read only if 'Meta' in {owner}.__dict__", ok, at=m, node=node,
+                       msg="Meta would be inherited from a base class: a subclass without its own Meta silently takes the base's name / namespace, so names and namespaces no longer follow the documented metadata")
+            # (b) getattr(X, "Meta", ...) follows inheritance
+            if isinstance(node, ast.Call) and isinstance(node.func, ast.Name) and node.func.id == "getattr" and len(node.args) >= 2 and isinstance(node.args[1], ast.Constant) and node.args[1].value == "Meta":
+                n += 1
+                ctx.ob(f"{m.name}: Meta is not looked up with getattr (which follows inheritance)", False, at=m, node=node, msg="getattr(cls, 'Meta') returns an inherited Meta")
+    ctx.floor("Meta reads in the metadata builder", n, 2)
